@@ -1,5 +1,6 @@
 import Knut.Proofs.MTMPeriods
 import Knut.Properties.C03Modes
+import Knut.Properties.C01
 /-!
 # C03 — the flow clause at cell level: every income/expense/equity account, closing on or off
 
@@ -381,6 +382,37 @@ theorem C03_command_flow_cell (f : BalanceFlags) (v : Commodity) (hf : PlainFlag
       rw [hsame a ha, hsame a ha]
     rw [this]
 
+/-! ### `Equity:Equity`, the receiving side of the closing transfers -/
+
+/-- **`Equity:Equity` is the residual.**  The closing transfers are booked inside the income/expense/equity section
+(`−value` on the closed account, `+value` on `Equity:Equity`), so they do not change the section's total; by double-entry
+conservation (C01) all inserts aligned to column dates `≤ D` sum to 0, hence the running total of `Equity:Equity` is
+minus the running total of all other accounts: with closing it carries, besides its own bookings, exactly what the
+closing transfers took off the other income/expense/equity rows. -/
+theorem C03_equity_equity_residual (cfg : BalCfg) (hu : Unfiltered cfg) (days : List Day) (hp : C01.PairedDays days)
+    (st : BalState) (h : Balance.run cfg days = .ok st) (D : Int) :
+    accCum equityAccount st.entries D = -(qCum (fun a => !decide (a = equityAccount)) st.entries D) := by
+  have h0 := C01.C01_entries_cancel cfg hu days hp st h (fun date _ => match date with | some D' => decide (D' ≤ D) | none => false)
+  have hsplit : sumSel (fun date _ => match date with | some D' => decide (D' ≤ D) | none => false) st.entries =
+      accCum equityAccount st.entries D + qCum (fun a => !decide (a = equityAccount)) st.entries D := by
+    rw [accCum_def]
+    unfold qCum sumSel
+    generalize st.entries = es
+    have := sumAmounts_filter_or (fun e => decide (e.account = equityAccount) && dateLe D e)
+      (fun e => !decide (e.account = equityAccount) && dateLe D e) es (fun e _ hc => by
+        obtain ⟨h1, h2⟩ := hc
+        simp only [Bool.and_eq_true, decide_eq_true_eq, Bool.not_eq_true', decide_eq_false_iff_not] at h1 h2
+        exact h2.1 h1.1)
+    rw [← this]
+    unfold BalanceReport.sumAmounts
+    congr 2
+    apply List.filter_congr
+    intro e _
+    unfold dateLe
+    by_cases he : e.account = equityAccount <;> simp [he] <;> rfl
+  rw [hsplit] at h0
+  grind
+
 /-! ### Non-vacuity
 
 The journal of `Properties/C03Report.lean`, daily columns from day 2 to day 4, valued in CHF.  `Income:A` has no booking
@@ -522,5 +554,13 @@ example : ∃ es part pre post cells, BalanceCmd.entries exFlagsC exDirs = .ok (
     simp only [List.map_cons, List.map_nil] at g3 g3' g3'' ⊢
     rw [g3, g3', g3'']
     refine List.cons_eq_cons.mpr ⟨by decide +kernel, List.cons_eq_cons.mpr ⟨by decide +kernel, List.cons_eq_cons.mpr ⟨by decide +kernel, rfl⟩⟩⟩
+
+/-- `Equity:Equity` with closing on the same report: it carries −1.75 in the column of day 3 (the transfer of day 3 took
+1.75 off `Equity:E`) and −4.66666665 in the column of day 4; the other accounts carry the opposite -/
+example : (match BalanceCmd.entries exFlagsC exDirs with
+    | .ok (es, _) => decide (accCum equityAccount es 3 = -(7/4) ∧ qCum (fun a => !decide (a = equityAccount)) es 3 = 7/4 ∧
+        accCum equityAccount es 4 = -(466666665/100000000) ∧
+        qCum (fun a => !decide (a = equityAccount)) es 4 = 466666665/100000000)
+    | .error _ => false) = true := by decide +kernel
 
 end Knut.C03
